@@ -8,6 +8,14 @@ NOTE_COMMON = ("Trusted base: go/packages + go/types + go/ssa of golang.org/x/to
                "so a large refactoring can raise an alarm although behaviour is preserved.")
 
 claimed = {
+ "C14": dict(
+   text="Decides the state-machine and table clauses of the PFB decoder: the header guard evaluated for all 65,536 first-two-byte values accepts exactly 0x80 with type 1/2/3 and returns ErrInvalidPFB by identity otherwise; every value the state can take is a label of the state switch; little-endian length; read errors in text/binary states returned unconditionally, binary data via io.ReadFull, only the two-byte end marker tolerated as a short header; lower-case nibble encoder; in-place expansion from the back with the right nibble per parity; leftover state reads nothing; nil error only after the buffer-filling loop. Index bounds of the expansion are C01's obligations. Byte-exact output for every buffer pattern is not decided.",
+   technique="static analysis: exhaustive evaluation of the header guard over its 2^16 domain, who-may-store on the state field vs switch labels, canonical symbolic terms, go/ssa def-use for error returns",
+   ref="DESIGN.md §5 C14"),
+ "C16": dict(
+   text="Decides parser-shape-versus-data, table and grammar clauses of the glyph-name mapping: the embedded tables are parsed by the checker from /repo and must be takable by the repository's parsers as written (multi-code entries need a splitting parser; discarded errors only where the data proves them impossible); AGLFN ↔ glyph list agreement after the coded swaps, uniqueness, no table name of the algorithmic forms, injective compatibility expansions, fallback format; IsValid and the uni/u grammar guards (lengths, classes, surrogates, range) evaluated from the source over all bytes and boundary values; explicit upper-case hex classifiers; per-component scratch; dingbats table only on request. The exhaustive per-code-point statements themselves are not decided.",
+   technique="static analysis: data files checked against parser shape extracted from the AST, byte/boundary-value evaluation of comparison-only predicates, AST scope rules",
+   ref="DESIGN.md §5 C16"),
  "C07": dict(
    text="Decides the guard-table and sibling-agreement clauses of the CMap reader: the 17 CIDInit operators exist; every begin* demands an open block, one integer operand in [0,100] with the prescribed error names and sizes its scratch buffer with it; every end* takes 2 or 3 operands per entry below a computed base (stackunderflow if missing), asserts string sources, equal-length non-reversed bounds for all four range kinds, the destination class of its kind, all before the first store; appends copies into the table of its own kind after the loop, pops its operands and resets the scratch buffer; sibling operators are identical up to name/table/destination test; endcmap sorts all seven tables with the right comparator and stores them under CodeMap; usecmap records its operand. Does not decide equality of the tables with the file's entries as values.",
    technique="static analysis: go/ssa dominating-condition bounds and error-name classification per registered operator, sibling comparison of normalised operator bodies, comparator structure check",
